@@ -6,9 +6,9 @@ src="$1"; prop="$2"; name="$3"
 wt=/tmp/seedconfirm_$$
 git -C /repo worktree add -q --detach "$wt" HEAD || exit 9
 cd "$wt"
-/venv/bin/python "$src/demo.py" >/tmp/seedconfirm_$$.a 2>&1; a=$?
+PYTHONPATH="$wt" /venv/bin/python "$src/demo.py" >/tmp/seedconfirm_$$.a 2>&1; a=$?
 git apply "$src/patch.diff" || { echo "patch does not apply"; git -C /repo worktree remove --force "$wt"; exit 9; }
-/venv/bin/python "$src/demo.py" >/tmp/seedconfirm_$$.b 2>&1; b=$?
+PYTHONPATH="$wt" /venv/bin/python "$src/demo.py" >/tmp/seedconfirm_$$.b 2>&1; b=$?
 /venv/bin/python /verif/tools/baseline.py "$wt" >/tmp/seedconfirm_$$.c 2>&1; c=$?
 cd /verif
 git -C /repo worktree remove --force "$wt"
